@@ -21,6 +21,7 @@ import (
 
 	"github.com/tmpim/casket"
 	_ "github.com/tmpim/casket/caskethttp"
+	"github.com/tmpim/casket/caskethttp/httpserver"
 
 	"verifharness/hx"
 )
@@ -33,11 +34,14 @@ import (
 //              request when Restart is called; once the old listener of address 1 is closed a fresh connection
 //              probes address 1 (`mid`); then the first client completes its request (`str`); then Restart returns
 //
+//   L:<kind>   the same with a request that OUTLIVES the graceful period (`-grace`, set to 300 ms for this stream): the drain
+//              of the server of address 1 times out, Restart returns, only then does the client complete its request
+//
 //   kind = the addresses served: digits 1, 2 (free loopback ports chosen per case) and 3 (a port another listener
 //          holds), suffix x = the configuration fails during setup
 //   every site answers with its generation number, so a response says which configuration produced it
 //
-//   out = step|step|…   step = <res>;fd=<f1>.<f2>;sk=<s1>.<s2>;p=<m1>.<m2>[;mid=<m>;str=<m>]
+//   out = step|step|…   step = <res>;fd=<f1>.<f2>;sk=<s1>.<s2>;p=<m1>.<m2>;ni=<n>[;mid=<m>][;str=<m>]     ni = len(casket.Instances())
 //     fd  listening descriptors on address 1 / 2          sk  identity of the listening socket (inode), renamed in
 //     p   answer to a fresh connection: generation, - (refused), hang            order of first appearance, 0 = none
 
@@ -56,6 +60,8 @@ func c07Setup() error {
 	if !c07.inited {
 		c07.inited = true
 		casket.Quiet = true
+		// the graceful period of every server this stream creates: short, so that a request can outlive it (L: operations)
+		httpserver.GracefulTimeout = 300 * time.Millisecond
 		c07.portCur = 20000 + (os.Getpid()*53)%9000
 	}
 	log.SetOutput(io.Discard)
@@ -296,7 +302,7 @@ func (o *c07Obs) observe(p [4]int) string {
 			}
 		}
 	}
-	return fmt.Sprintf("fd=%d.%d;sk=%d.%d;p=%s.%s", fd[1], fd[2], sk[1], sk[2], c07Probe(p[1]), c07Probe(p[2]))
+	return fmt.Sprintf("fd=%d.%d;sk=%d.%d;p=%s.%s;ni=%d", fd[1], fd[2], sk[1], sk[2], c07Probe(p[1]), c07Probe(p[2]), len(casket.Instances()))
 }
 
 func c07Eval(f []string) (string, []string) {
@@ -311,18 +317,19 @@ func c07Eval(f []string) (string, []string) {
 	}
 	type op struct {
 		straddle bool
+		long     bool
 		k        c07Kind
 	}
 	var ops []op
 	for _, s := range f[1:] {
-		if !strings.HasPrefix(s, "R:") && !strings.HasPrefix(s, "T:") {
+		if !strings.HasPrefix(s, "R:") && !strings.HasPrefix(s, "T:") && !strings.HasPrefix(s, "L:") {
 			return "bad-case", nil
 		}
 		k, ok := c07ParseKind(s[2:])
 		if !ok {
 			return "bad-case", nil
 		}
-		ops = append(ops, op{s[0] == 'T', k})
+		ops = append(ops, op{s[0] == 'T', s[0] == 'L', k})
 	}
 	var p [4]int
 	p[1], p[2], p[3] = c07FreePort(), c07FreePort(), c07.p3
@@ -342,7 +349,40 @@ func c07Eval(f []string) (string, []string) {
 		in := c07Input(o.k, gen, p)
 		res := "ok"
 		extra := ""
-		if !o.straddle {
+		if o.long {
+			// a request that outlives the graceful period
+			str := "-"
+			conn, err := net.DialTimeout("tcp", fmt.Sprintf("127.0.0.1:%d", p[1]), 2*time.Second)
+			if err == nil {
+				conn.Write([]byte("GET / HTTP/1.1\r\nHost: 127.0.0.1\r\nConnection: close\r\n"))
+				peer := conn.LocalAddr().(*net.TCPAddr).Port
+				deadline := time.Now().Add(c07Patience)
+				for time.Now().Before(deadline) && !c07Accepted(p[1], peer) {
+					time.Sleep(200 * time.Microsecond)
+				}
+			}
+			if _, err := insts[0].Restart(in); err != nil { // returns after the drain of the busy server timed out
+				res = "err"
+			}
+			if conn != nil {
+				conn.SetDeadline(time.Now().Add(c07Patience))
+				conn.Write([]byte("\r\n"))
+				resp, err := http.ReadResponse(bufio.NewReader(conn), nil)
+				if err != nil {
+					str = "e:reset"
+				} else {
+					b, _ := io.ReadAll(io.LimitReader(resp.Body, 64))
+					resp.Body.Close()
+					str = strings.TrimSpace(string(b))
+					if resp.StatusCode != 200 {
+						str = "e:" + strconv.Itoa(resp.StatusCode)
+					}
+				}
+				conn.Close()
+			}
+			extra = ";str=" + str
+			tags["longflight-"+res] = true
+		} else if !o.straddle {
 			if _, err := insts[0].Restart(in); err != nil {
 				res = "err"
 			}
@@ -657,6 +697,30 @@ func c07Gen(g *hx.Gen) {
 	}
 	for _, s := range starts {
 		rec([]string{"S:" + s}, maxLen)
+	}
+	// requests that outlive the graceful period (each costs the 300 ms of the drain that times out): two or more listeners,
+	// the long request on the first one, followed by further reloads
+	long := [][]string{
+		{"S:12", "L:12"}, {"S:12", "L:21"}, {"S:12", "L:12", "R:12"}, {"S:12", "L:1"}, {"S:12", "L:2"}, {"S:12", "L:12x"},
+		{"S:12", "L:13"}, {"S:1", "L:12"}, {"S:1", "L:1", "T:12"}, {"S:2", "L:12"}, {"S:12", "R:21", "L:12", "L:21"},
+		{"S:12", "L:123"}, {"S:12", "T:12", "L:12", "R:1"},
+	}
+	for _, c := range long {
+		g.Case(c...)
+	}
+	if g.Thorough() {
+		for it := 0; it < 60; it++ {
+			ops := []string{"S:" + hx.Pick(g.Rng, starts)}
+			L := 2 + g.Rng.Intn(4)
+			for i := 0; i < L; i++ {
+				if g.Rng.Chance(1, 3) {
+					ops = append(ops, "L:"+hx.Pick(g.Rng, c07Kinds))
+				} else {
+					ops = append(ops, hx.Pick(g.Rng, alpha))
+				}
+			}
+			g.Case(ops...)
+		}
 	}
 	N := 200
 	if g.Thorough() {
